@@ -221,8 +221,13 @@ def check_property(prop: str, tier: str, seed: int) -> int:
     # ------------------------------------------------------------------ classify
     wall = time.time() - t0
     # known findings that are listed but did not fire: nothing is printed (they suppress nothing)
+    _seen_kf = set()
     for kh in known_hits:
-        print("KNOWN-FINDING: property=%s %s" % (prop, kh["finding"].get("text", kh["entry"]["obligation"])))
+        _t = kh["finding"].get("text", kh["entry"]["obligation"])
+        if _t in _seen_kf:
+            continue
+        _seen_kf.add(_t)
+        print("KNOWN-FINDING: property=%s %s" % (prop, _t))
     rc = 0
     replay_path = None
     if violations:
@@ -273,7 +278,7 @@ def check_property(prop: str, tier: str, seed: int) -> int:
             "solver_ms_verus": smt_ms,
             "bounded_stand_ins": bounded,
             "undecided": undecided,
-            "known_findings_reported": [k["finding"].get("text") for k in known_hits],
+            "known_findings_reported": sorted(set(k["finding"].get("text") for k in known_hits)),
             "vacuity_canaries_ok": canary_ok,
             "samples": samples[:10] if samples else [{"note": "no unit ran"}],
             "exhaustive": False,
